@@ -162,6 +162,9 @@ class _GeomAero:
 
 # ---------------------------------------------------------------------------------------------
 TWO_KINDS = {"A": "aero2", "B": "as_tube"}
+# second pairing: two aerostructural Problems of different stiffness whose coupled groups use an iterative linear solver,
+# so that FEM.solve_linear / the matrix-free products of both Problems really run, interleaved
+PAIRS = [{"A": "aero2", "B": "as_tube"}, {"A": "as_tube_it", "B": "as_tubeB_it"}]
 
 
 def _alone(kind, ops):
@@ -181,8 +184,10 @@ def _alone(kind, ops):
     return res
 
 
-def _two_job(h):
+def _two_job(a):
     """Replay one interleaving on two live Problems; each must equal the same Problem run alone, bit for bit."""
+    h, pair = a
+    TWO_KINDS = PAIRS[pair]
     live = {p: lifecycle.Live(k) for p, k in TWO_KINDS.items()}
     for L in live.values():
         L.set_point("p0")
@@ -213,7 +218,7 @@ def _two_job(h):
                     if err > 1e-14:
                         bad.append(("two:%s:%s" % (ta, TWO_KINDS[p]), {"var": k, "err": err}))
                         break
-    return {"h": h, "bad": bad}
+    return {"h": h, "pair": pair, "bad": bad}
 
 
 # ---------------------------------------------------------------------------------------------
@@ -306,20 +311,30 @@ def run(tier, only=None):
     tab = comptable.extract()
     depth = 4 if tier == "quick" else 5
     res2 = tlc.run("OASTwo", "OASTwo.cfg", workers=4, constants={"Depth": depth}, extra_files={"CompTable.tla": comptable.to_tla(tab)}, timeout=900)
-    if res2["violated"]:
-        R.violation("two:model:%s" % res2["violated"], {"trace": res2["trace"][-2:], "shared": [c["class"] for c in tab["components"] if c["shared"]]})
+    shared = [(c["class"], c["shared"]) for c in tab["components"] if c["shared"]]
+    if res2["violated"] and not shared:
+        raise MachineryError("OASTwo: %s violated although the extracted table has no shared state" % res2["violated"])
     R.add_tlc(res2)
+    if res2["violated"]:
+        # the table says that instances share mutable state (class attribute / module-level container): the model-level
+        # counterexample is confirmed on the code before anything is reported - every interleaving, both pairings
+        res2 = tlc.run("OASTwo", "OASTwo.cfg", workers=4, constants={"Depth": depth}, timeout=900)
+        R.add_tlc(res2)
     hs = [o["h"] for o in tlc.emitted(res2, "HIST")]
     hs = [h for h in hs if len({e[0] for e in h}) == 2 and sum(1 for e in h if e[1] == "run") >= 2]
     rng = np.random.default_rng(seed() + 20)
     lim = 120 if tier == "quick" else 1200
+    if shared:
+        lim *= 3
     if len(hs) > lim:
         hs = [hs[i] for i in sorted(rng.choice(len(hs), lim, replace=False))]
-    for i, r in enumerate(check_exc(pmap(_two_job, hs))):
+    # pairing 1 (iterative linear solvers) on the interleavings with at least one derivative computation per Problem
+    tjobs = [(h, 0) for h in hs] + [(h, 1) for h in hs if sum(1 for e in h if e[1] == "totals") >= 1][: (len(hs) if shared else max(12, len(hs) // 6))]
+    for i, r in enumerate(check_exc(pmap(_two_job, tjobs))):
         R.replayed += 1
-        R.case(["two", r["h"]], True, sample={"interleaving": r["h"]} if i % 41 == 0 else None, section="two_problems")
+        R.case(["two", r["pair"], r["h"]], True, sample={"interleaving": r["h"], "problems": PAIRS[r["pair"]]} if i % 41 == 0 else None, section="two_problems")
         for sig, p in r["bad"]:
-            R.violation(sig, {"history": r["h"], "detail": p})
+            R.violation(sig, {"history": r["h"], "pair": r["pair"], "detail": p})
     for r in check_exc(pmap(_admissible_job, range(30 if tier == "quick" else 300))):
         R.case(["admissible", r["k"]], True, sample=r["case"] if r["k"] % 13 == 0 else None, section="admissible")
         for sig, p in r["bad"]:
@@ -332,7 +347,7 @@ def replay(path):
     with open(path) as f:
         p = json.load(f)["payload"]
     if "history" in p:
-        r = _two_job(p["history"])
+        r = _two_job((p["history"], p.get("pair", 0)))
         print(r["bad"])
         if r["bad"]:
             print("VIOLATION property=C20 replay=%s" % path)
